@@ -7,14 +7,19 @@
 //
 //   case <id>                                  -> "case <id>"   (flushes a pending history first)
 //   cfg <int|str> <reload 0|1> <default|-> <nin 1|2> <key>=<branch> ...     -> "ok" | "bad-op"
-//        branches: inc    x+1                               (stateless, binds x)
-//                  sum    running sum of x                   (stateful, binds x)
-//                  keyadd key+x                              (key-consuming, binds key and x)
-//                  timer  x tick: n=x, left=2, emit 10n, wake +2 (tag t); wake: emit 10n+left, left--, wake +2 while left>0
-//                                                           (self-scheduling, NodeScheduler, binds x)
-//                  beat   start hook schedules now; every wake: k++, emit 100+k, wake +2 while k<3   (arity 0)
-//                  add2   x+y                               (two inputs; needs nin=2)
-//                  dbl1   2x+1, a two-node sub-graph (stdlib mul_ feeding a harness node)
+//        branches (every branch binds ALL nin inputs; a key-consuming one the key as well):
+//          nin=0: beat    start hook schedules now; every wake: k++, emit 100+k, wake +2 while k<3   (self-scheduling source)
+//                 keyonly key*2                                           (key-consuming)
+//          nin=1: inc     x+1                                             (stateless)
+//                 sum     running sum of x                                (stateful)
+//                 keyadd  key+x                                           (key-consuming)
+//                 timer   x tick: n=x, left=2, emit 10n, wake +2 (tag t); wake: emit 10n+left, left--, wake +2 while left>0
+//                                                                         (self-scheduling, NodeScheduler)
+//                 dbl1    2x+1, a two-node sub-graph (stdlib mul_ feeding a harness node)
+//          nin=2: add2    x+y                                             (needs both valid)
+//                 keyadd2 key+x+y                                         (key-consuming)
+//                 sum2    total += x if x ticked, += y if y ticked; inputs Unchecked (evaluated with invalid inputs too)
+//                 timer2  as timer on x, + y                              (self-scheduling)
 //   c [k <key>] [x <v>] [y <v>]                one engine cycle at MIN_ST + i; answered when the run happens:
 //        "idle"                                 the root graph was not evaluated in that cycle
 //        "rec=<v|-> out=<v|none> ev=<e,e,...|-> ngc=<stored graphs>"
@@ -189,6 +194,28 @@ namespace
         }
     };
 
+    struct HgvKeyOnlyI
+    {
+        static constexpr auto name = "hgv_keyonly";
+        static void start(State<Life> s) { born(s); }
+        static void eval(In<"key", TS<Int>> key, State<Life> s, Out<TS<Int>> out)
+        {
+            user(s);
+            out.set(key.value() * Int{2});
+        }
+    };
+
+    struct HgvKeyOnlyS
+    {
+        static constexpr auto name = "hgv_keyonly";
+        static void start(State<Life> s) { born(s); }
+        static void eval(In<"key", TS<Str>> key, State<Life> s, Out<TS<Int>> out)
+        {
+            user(s);
+            out.set(Int{std::stoll(std::string{key.value()})} * Int{2});
+        }
+    };
+
     struct HgvAdd2
     {
         static constexpr auto name = "hgv_add2";
@@ -197,6 +224,68 @@ namespace
         {
             user(s);
             out.set(x.value() + y.value());
+        }
+    };
+
+    struct HgvKeyAdd2I
+    {
+        static constexpr auto name = "hgv_keyadd2";
+        static void start(State<Life> s) { born(s); }
+        static void eval(In<"key", TS<Int>> key, In<"x", TS<Int>> x, In<"y", TS<Int>> y, State<Life> s, Out<TS<Int>> out)
+        {
+            user(s);
+            out.set(key.value() + x.value() + y.value());
+        }
+    };
+
+    struct HgvKeyAdd2S
+    {
+        static constexpr auto name = "hgv_keyadd2";
+        static void start(State<Life> s) { born(s); }
+        static void eval(In<"key", TS<Str>> key, In<"x", TS<Int>> x, In<"y", TS<Int>> y, State<Life> s, Out<TS<Int>> out)
+        {
+            user(s);
+            out.set(Int{std::stoll(std::string{key.value()})} + x.value() + y.value());
+        }
+    };
+
+    struct HgvSum2
+    {
+        static constexpr auto name = "hgv_sum2";
+        static void start(State<Life> s) { born(s); }
+        static void eval(In<"x", TS<Int>, InputValidity::Unchecked> x, In<"y", TS<Int>, InputValidity::Unchecked> y, State<Life> s,
+                         Out<TS<Int>> out)
+        {
+            user(s);
+            auto &l = s.modify();
+            if (x.valid() && x.modified()) { l.a += x.value(); }
+            if (y.valid() && y.modified()) { l.a += y.value(); }
+            out.set(l.a);
+        }
+    };
+
+    struct HgvTimer2
+    {
+        static constexpr auto name = "hgv_timer2";
+        static void start(State<Life> s) { born(s); }
+        static void eval(In<"x", TS<Int>> x, In<"y", TS<Int>> y, NodeScheduler sched, State<Life> s, Out<TS<Int>> out)
+        {
+            user(s);
+            auto &l = s.modify();
+            if (x.modified())
+            {
+                l.a = x.value();
+                l.b = 2;
+                out.set(l.a * 10 + y.value() * 1000);
+                sched.schedule(TimeDelta{2}, std::string{"t"});
+            }
+            else if (sched.is_scheduled_now())
+            {
+                out.set(l.a * 10 + l.b + y.value() * 1000);
+                l.b -= 1;
+                if (l.b > 0) { sched.schedule(TimeDelta{2}, std::string{"t"}); }
+            }
+            else { out.set(y.value() * 1000); }
         }
     };
 
@@ -210,7 +299,8 @@ namespace
         }
     };
 
-    const std::vector<std::string> BRANCHES{"inc", "sum", "keyadd", "timer", "beat", "add2", "dbl1"};
+    const std::map<std::string, int> BRANCHES{{"beat", 0},  {"keyonly", 0}, {"inc", 1},     {"sum", 1},  {"keyadd", 1}, {"timer", 1},
+                                              {"dbl1", 1},  {"add2", 2},    {"keyadd2", 2}, {"sum2", 2}, {"timer2", 2}};
 
     // which harness node identifies a branch graph (the observer names a started instance by it)
     std::string branch_of_graph(const GraphView &g)
@@ -275,7 +365,11 @@ namespace
         if (b == "keyadd") { return str_key ? fn<HgvKeyAddS>() : fn<HgvKeyAddI>(); }
         if (b == "timer") { return fn<HgvTimer>(); }
         if (b == "beat") { return fn<HgvBeat>(); }
+        if (b == "keyonly") { return str_key ? fn<HgvKeyOnlyS>() : fn<HgvKeyOnlyI>(); }
         if (b == "add2") { return fn<HgvAdd2>(); }
+        if (b == "keyadd2") { return str_key ? fn<HgvKeyAdd2S>() : fn<HgvKeyAdd2I>(); }
+        if (b == "sum2") { return fn<HgvSum2>(); }
+        if (b == "timer2") { return fn<HgvTimer2>(); }
         if (b == "dbl1") { return fn<HgvDbl1>(); }
         throw std::invalid_argument("branch");
     }
@@ -289,6 +383,7 @@ namespace
         std::vector<std::size_t>    ngc;        // stored graphs after cycle i
         std::vector<std::optional<Int>> out;    // switch output value after cycle i
         std::size_t                 ncycles{0};
+        std::size_t                 begun{0};   // last cycle the root graph began
 
         int id_of(const GraphView &g) const
         {
@@ -317,6 +412,7 @@ namespace
             if (g.is_root())
             {
                 g_cycle = std::min<std::size_t>(testing::cycle_offset(g.evaluation_time()), ncycles);
+                begun   = g_cycle;
                 return;
             }
             ev("E" + std::to_string(id_of(g)));
@@ -380,8 +476,12 @@ namespace
             record_replay::set_config(w.global_state(),
                                       record_replay::RecordReplayConfig{.backend = std::string{record_replay::TESTING}});
             auto key = call_operator(w, "replay", {scalar_arg(Value{Str{"hgv::key"}})}, true, ts_key);
-            auto x   = call_operator(w, "replay", {scalar_arg(Value{Str{"hgv::x"}})}, true, ts_int);
-            std::vector<WiringArg> sargs{ts_arg(key.output.erased()), scalar_arg(Value{cases}), ts_arg(x.output.erased())};
+            std::vector<WiringArg> sargs{ts_arg(key.output.erased()), scalar_arg(Value{cases})};
+            if (cfg.nin >= 1)
+            {
+                auto x = call_operator(w, "replay", {scalar_arg(Value{Str{"hgv::x"}})}, true, ts_int);
+                sargs.push_back(ts_arg(x.output.erased()));
+            }
             if (cfg.nin == 2)
             {
                 auto y = call_operator(w, "replay", {scalar_arg(Value{Str{"hgv::y"}})}, true, ts_int);
@@ -400,7 +500,7 @@ namespace
                 yd.push_back(c.y ? std::optional<Value>{Value{Int{*c.y}}} : std::nullopt);
             }
             testing::set_replay_deltas(gb.global_state(), "hgv::key", kd);
-            testing::set_replay_deltas(gb.global_state(), "hgv::x", xd);
+            if (cfg.nin >= 1) { testing::set_replay_deltas(gb.global_state(), "hgv::x", xd); }
             if (cfg.nin == 2) { testing::set_replay_deltas(gb.global_state(), "hgv::y", yd); }
 
             GraphExecutorBuilder eb;
@@ -418,24 +518,7 @@ namespace
         // the executor (and with it both graph slots) is released here; destructions land in the tail
 
         std::optional<std::size_t> failed_at;
-        if (!error.empty())
-        {
-            // the failing cycle is the last one the root graph started to evaluate
-            std::size_t last = 0;
-            for (std::size_t i = 0; i < cycles.size(); ++i)
-            {
-                if (!g_events[i].empty() || (i < obs.seen.size() && obs.seen[i])) { last = i; }
-            }
-            // a cycle that failed has no after-evaluation callback; find the first unseen cycle with input
-            failed_at = cycles.size();
-            for (std::size_t i = 0; i < cycles.size(); ++i)
-            {
-                const bool has_input = cycles[i].k || cycles[i].x || cycles[i].y;
-                const bool seen      = i < obs.seen.size() && obs.seen[i];
-                if (has_input && !seen) { failed_at = i; break; }
-            }
-            static_cast<void>(last);
-        }
+        if (!error.empty()) { failed_at = obs.begun; }   // the last cycle the root graph began to evaluate
         for (std::size_t i = 0; i < cycles.size(); ++i)
         {
             if (failed_at && i > *failed_at) { lines.push_back("dead"); continue; }
@@ -517,10 +600,13 @@ int main()
                 bool ok = true;
                 if (w[1] == "int") { c.str_key = false; } else if (w[1] == "str") { c.str_key = true; } else { ok = false; }
                 if (w[2] == "0") { c.reload = false; } else if (w[2] == "1") { c.reload = true; } else { ok = false; }
-                auto known = [&](const std::string &b) { return std::find(BRANCHES.begin(), BRANCHES.end(), b) != BRANCHES.end(); };
+                if (w[4] == "0") { c.nin = 0; } else if (w[4] == "1") { c.nin = 1; } else if (w[4] == "2") { c.nin = 2; } else { ok = false; }
+                auto known = [&](const std::string &b) {
+                    auto it = BRANCHES.find(b);
+                    return it != BRANCHES.end() && it->second == c.nin;
+                };
                 c.dflt = w[3];
                 if (c.dflt != "-" && !known(c.dflt)) { ok = false; }
-                if (w[4] == "1") { c.nin = 1; } else if (w[4] == "2") { c.nin = 2; } else { ok = false; }
                 for (std::size_t i = 5; i < w.size() && ok; ++i)
                 {
                     auto eq = w[i].find('=');
@@ -532,13 +618,7 @@ int main()
                     for (const auto &e : c.cases) { if (e.first == k) { ok = false; } }
                     c.cases.emplace_back(k, b);
                 }
-                auto uses = [&](const std::string &b) {
-                    if (c.dflt == b) { return true; }
-                    for (const auto &e : c.cases) { if (e.second == b) { return true; } }
-                    return false;
-                };
                 if (c.cases.empty() && c.dflt == "-") { ok = false; }
-                if (uses("add2") && c.nin != 2) { ok = false; }
                 if (ok) { cfg = c; cfg_bad = false; std::cout << "ok\n"; }
                 else { cfg_bad = true; std::cout << "bad-op\n"; }
             }
@@ -552,7 +632,7 @@ int main()
                     const std::int64_t v = to_i(w[i + 1]);
                     if (std::to_string(v) != w[i + 1]) { ok = false; }
                     else if (w[i] == "k" && !c.k) { c.k = v; }
-                    else if (w[i] == "x" && !c.x) { c.x = v; }
+                    else if (w[i] == "x" && !c.x && cfg.nin >= 1) { c.x = v; }
                     else if (w[i] == "y" && !c.y && cfg.nin == 2) { c.y = v; }
                     else { ok = false; }
                 }
